@@ -7,7 +7,7 @@ import numpy as np
 
 import impl
 
-RULE = ("random solved models with 1-6 pins (pins with and without mode names), sweep length 1-5, non-symmetric complex "
+RULE = ("random solved models with 1-6 pins (pins with and without mode names, several modes of one port sharing its base name), sweep length 1-5, non-symmetric complex "
         "matrices with zero entries, solved parameters of length 1 or ns; random excitation dictionaries over a subset of "
         "pins; all helpers {get_T, get_PH, get_A, get_output (both modes), get_full_output, get_data, get_full_data}; the "
         "same circuit built with pin names and with Pin objects; distinct = distinct (matrix, excitation); non-trivial = "
@@ -34,9 +34,17 @@ def rand_model(rng):
         S = np.round(S.real * 2).astype(int)
     elif kind < 0.24:
         S = S.real.copy()
-    pins = []
+    pins, taken = [], set()
     for k in range(n):
-        pins.append(L.Pin(f"p{k}", rng.choice([None, None, "TE", "TM"])))
+        # several modes of one port share the base name (p0_TE, p0_TM, and the mode-less p0): an amplitude given for one of them
+        # belongs to that pin only
+        base = f"p{rng.randrange(k)}" if k and rng.random() < 0.4 else f"p{k}"
+        free = [md for md in (None, "TE", "TM", "m2") if (base, md) not in taken]
+        if not free:
+            base, free = f"p{k}", [None, "TE", "TM"]
+        md = rng.choice(free if base != f"p{k}" else [None, None, "TE", "TM"])
+        taken.add((base, md))
+        pins.append(L.Pin(base, md))
     idx = rng.sample(range(nfull), n)
     pin_dic = {p: i for p, i in zip(pins, idx)}
     params = {"wl": np.linspace(1.5, 1.6, ns) if rng.random() < 0.7 else np.array([1.55])}
